@@ -101,7 +101,7 @@ def main(chk):
     ]
     prog = chk.program('on')
     o1_capacity(chk, prog)
-    hobl.handle_obligations(chk, prog, {'C04'}, ['simple', 'session', 'extended', 'named', 'malformed', 'cuts', 'pause', 'status', 'plugins', 'copy', 'timeouts', 'drops'])
+    hobl.handle_obligations(chk, prog, {'C04'}, ['simple', 'session', 'extended', 'named', 'malformed', 'cuts', 'pause', 'status', 'plugins', 'copy', 'timeouts', 'drops', 'checkout-failures'])
 
 
 if __name__ == '__main__':
